@@ -145,7 +145,10 @@ class Executor(object):
         if cond is not None:
             s.add(cond)
         self.feas_calls += 1
-        return s.check() != z3.unsat
+        try:
+            return s.check() != z3.unsat
+        except z3.Z3Exception:      # resource limit: treat as feasible (conservative)
+            return True
 
     def branch(self, st, cond):
         """-> list of (state, bool) for feasible branches of z3 Bool `cond`."""
@@ -1380,6 +1383,11 @@ class Executor(object):
             for s_, r_ in outs_:
                 if isinstance(r_, VOpaque):
                     s_.assume(z3.Not(opaque_is_none(r_.t)))      # a constructor never returns None
+                    # ... and returns a NEW object: different from every value that already has a name here
+                    for v_ in list(st.env.values()) + list(args) + list(kwargs.values()):
+                        v_ = v_.val if isinstance(v_, VOpt) else v_
+                        if isinstance(v_, VOpaque) and v_.t.sort() == r_.t.sort() and not v_.t.eq(r_.t):
+                            s_.assume(r_.t != v_.t)
             return outs_
         obj = self.new_ref(st, ci.key)
         if init is None:
@@ -1570,7 +1578,8 @@ class Executor(object):
         tgt = self.cur_target or {}
         self.used_opaque.add(key or name)
         spec = None
-        short = name.split('(')[0].split('.')[-1]
+        base_ = name.rsplit(').', 1)[1] if ').' in name else name      # a.b().c -> c (chained call: the last method)
+        short = base_.split('(')[0].split('.')[-1]
         for k in (key, name, short):
             if k is not None and k in tgt.get('opaque_spec', {}):
                 spec = tgt['opaque_spec'][k]
